@@ -21,6 +21,9 @@ def run(res, replay=None, inflate=False):
     nschemas = 6 if res.tier == "quick" else 40
     nimgs = 8 if res.tier == "quick" else 30
     cfgs = c01.configs_for(res.tier)
+    if inflate:
+        # C03 speaks about cursor access and visiting too
+        cfgs = [(c[0], c[1], c[2], c[3] + ("MSGDRV_CURSOR",)) for c in cfgs]
     res.extra["configurations"] = ["%s -std=%s" % (c[0], c[1]) for c in cfgs]
     cases = prepare_many(res.seed, nschemas, cfgs)
     dist = {}
@@ -59,7 +62,7 @@ def run(res, replay=None, inflate=False):
             if len(img) > 6000:
                 continue
             buf = pre + img + post
-            script = ["base %d" % len(pre), "size"] + decode_script(s, m, vtree_as_tree(v))
+            script = ["base %d" % len(pre), "size"] + (["ctrav"] if inflate else []) + decode_script(s, m, vtree_as_tree(v))
             expect = {}
             expected_field_values(s, m, lay["level"], v, ".", s.big_endian, expect)
             expect["size"] = str(len(img))
@@ -80,6 +83,8 @@ def run(res, replay=None, inflate=False):
                 for j, op in enumerate(script):
                     a = mout[mo + 2 + j]
                     b2 = iout[io + 2 + j]
+                    if op == "ctrav":
+                        b2 = b2.partition(" | ")[0]
                     e = expect.get(op)
                     bad = None
                     if e is not None and a != e:
